@@ -77,3 +77,8 @@ func c03GenAddr(i uint64) []byte {
 	h := sha512.Sum512([]byte(fmt.Sprintf("c03-absent-address-%d", i)))
 	return h[:32]
 }
+
+func c03GenSig(i uint64) []byte {
+	h := sha512.Sum512([]byte(fmt.Sprintf("c03-absent-sig-%d", i)))
+	return h[:]
+}
